@@ -55,6 +55,14 @@ class BooleanOption(ConfigOption[bool]):
         if disables:
             group.add_argument(*disables, dest=self.name, help=self.description + formatDefault(self.value), action='store_false', default=None)
 
+    def setFromString(self, string: str):
+        # bool('no') is True: parse the spellings that INI files use
+        # (yes/no, true/false, on/off, 1/0)
+        try:
+            self.value = ConfigParser.BOOLEAN_STATES[string.strip().lower()]
+        except KeyError:
+            raise ValueError('Not a boolean: {}'.format(string))
+
 class MultiStringOption(ConfigOption[List[str]]):
     def registerArgparse(self, group: ArgumentGroup):
         group.add_argument(*self.options, dest=self.name, type=str, nargs="*", help=self.description, action="append")
